@@ -285,6 +285,9 @@ func rewriteGo(path, src string) (string, bool) {
 	if strings.HasSuffix(path, "metadata/file_metadata.go") && reOSFile.MatchString(src) {
 		src = reOSFile.ReplaceAllString(src, "vfs.$1")
 		src = addImport(src, `vfs "`+modPath+`/vsync/vfs"`)
+		if regexp.MustCompile(`(?m)^\s*"os"\s*$`).MatchString(src) && !regexp.MustCompile(`\bos\.`).MatchString(src) {
+			src += "\nvar _ = os.ErrNotExist // the rewrite removed the file's last use of package os\n"
+		}
 		changed = true
 	}
 	if changed {
